@@ -455,6 +455,17 @@ REJECTS = {
     "check_region-length": lambda: vd.scatter_points((0.0, 1.0, 0.0), 3),
     "block_split-coord-shapes": lambda: vd.block_split((np.arange(4.0), np.arange(5.0)), spacing=1.0),
     # only the EXTRA coordinate disagrees (a missing value, a transposed array): the index arrays returned would address it wrongly
+    "cross_val_score-data-longer": lambda: vd.cross_val_score(vd.Trend(1), (np.arange(8.0), np.arange(8.0) ** 2 % 5), np.arange(9.0), cv=KFold(2)),
+    "cross_val_score-weights-longer": lambda: vd.cross_val_score(vd.Trend(1), (np.arange(8.0), np.arange(8.0) ** 2 % 5), np.arange(8.0), weights=np.ones(9), cv=KFold(2)),
+    "cross_val_score-data-transposed": lambda: vd.cross_val_score(vd.Trend(1), (np.arange(8.0).reshape(2, 4), (np.arange(8.0) ** 2 % 5).reshape(2, 4)),
+                                                                   np.arange(8.0).reshape(4, 2), cv=KFold(2)),
+    "train_test_split-data-longer": lambda: vd.train_test_split((np.arange(8.0), np.arange(8.0) ** 2 % 5), np.arange(9.0), random_state=0),
+    "distance_mask-coordinates-shapes": lambda: vd.distance_mask((np.arange(5.0), np.arange(5.0) % 3), 2.0,
+                                                                  coordinates=(np.arange(28.0).reshape(4, 7) / 4, np.arange(28.0).reshape(7, 4) / 9)),
+    "convexhull_mask-coordinates-shapes": lambda: vd.convexhull_mask((np.array([0.0, 4.0, 4.0, 0.0, 2.0]), np.array([0.0, 0.0, 3.0, 3.0, 1.0])),
+                                                                      coordinates=(np.arange(28.0).reshape(4, 7) / 7, np.arange(28.0).reshape(7, 4) / 9)),
+    "distance_mask-extra-coordinate-shape": lambda: vd.distance_mask((np.arange(5.0), np.arange(5.0) % 3), 2.0,
+                                                                      coordinates=(np.arange(6.0), np.arange(6.0) / 2, np.arange(5.0))),
     "rolling_window-region-west>east": lambda: vd.rolling_window((np.arange(6.0), np.arange(6.0) * 0.5), size=2.0, spacing=1.0, region=(5.0, 0.0, 0.0, 2.5)),
     "rolling_window-region-south>north": lambda: vd.rolling_window((np.arange(6.0), np.arange(6.0) * 0.5), size=1.0, shape=(2, 2), region=(0.0, 5.0, 2.5, 0.0)),
     "block_split-region-west>east": lambda: vd.block_split((np.arange(6.0), np.arange(6.0) * 0.5), spacing=1.0, region=(5.0, 0.0, 0.0, 2.5)),
